@@ -444,6 +444,10 @@ CELLS = [
 ]
 VIEW_APIS = ["UnsafeNext", "UnsafeUntil", "ReadUnsafeString", "EncoderBuffer", "EncoderUnsafeString"]
 SAFE_APIS = ["Next", "Until", "ReadSafeString", "ReadString", "ReadBytes", "ReadStringAsBytes", "EncoderBytes", "EncoderString"]
+# what the codecs and the Formatter return (every exit: value, error, panic error, unencodable result): the caller's own
+# bytes, like Encoder.Bytes - looked at again after the pooled encoders have been reused
+CODEC_APIS = ["Codec:senc-value", "Codec:senc-error", "Codec:senc-panic", "Codec:senc-unencodable", "Codec:cenc", "Codec:marshal"]
+SAFE_APIS += CODEC_APIS
 
 
 def gen_scribble(ctx):
@@ -456,7 +460,7 @@ def gen_scribble(ctx):
                     cases.append({"id": cid, "kind": "scribble", "dest": dest, "wname": w, "wire": hx(WIRES[w][0]),
                                   "simple": simple, "via": via})
     for api in VIEW_APIS + SAFE_APIS:
-        for via in ("slice", "reader"):
+        for via in (("slice",) if api in CODEC_APIS else ("slice", "reader")):
             for simple in (True, False):
                 cid += 1
                 cases.append({"id": cid, "kind": "viewapi", "api": api, "via": via, "simple": simple})
@@ -465,7 +469,7 @@ def gen_scribble(ctx):
 
 def scribble_model_line(c):
     if c["kind"] == "viewapi":
-        return "api %s 1" % c["api"]
+        return "api %s 1" % ("EncoderBytes" if c["api"] in CODEC_APIS else c["api"])
     dty = DESTS[c["dest"]]
     w = WIRES[c["wname"]][1]
     if c["dest"] in ("struct", "pstruct") and c["wname"] == "structmap":
